@@ -72,11 +72,8 @@ type world struct {
 	violated   bool
 	concurrent bool
 	extSeen    bool // external commit allowance is or has been enabled in this script
-	ahtDirty   bool // external commit allowance in use and a precommit attempt was made after a Discard that removed
-	// something (non-embedded store): a commit loop that stopped midway may have left commit-log entries that a
-	// reopen turns into committed transactions, whose leaves in the AHT (physical leftovers of its never truncated
-	// digest log) the list-of-leaves AHT of the model does not represent; random scripts do not reopen the store
-	// from then on (directed scripts do). Without allowance OpenWith rebuilds the tree beyond the committed txs.
+	ahtDirty   bool // set after Discard + precommit attempt under allowance; no longer restricts generation: since
+	// 2077e08 / 8728288 OpenWith rebuilds the tree beyond the committed transactions and no commit-log tail exists
 	collect   bool // falsifier-only scenario: findings are collected instead of reported
 	collected []string
 	transient int             // read errors that disappeared on retry
